@@ -160,3 +160,16 @@ func VerifReconnectKeyOf(cfg EgressConfig) string {
 	cfg.fillDefaults()
 	return cfg.reconnectKey
 }
+
+// VerifSetPool gives sender i a fresh address pool (what replacePool does after a DNS refresh).
+func VerifSetPool(e *Egress, i int, addrs []string) {
+	e.verifSender(i).replacePool(addressPool{addrs: addrs})
+}
+
+// VerifPick is the pool access of tcpSender.reconnect: one real pick under poolMu.
+func VerifPick(e *Egress, i int) (string, bool) {
+	s := e.verifSender(i)
+	s.poolMu.Lock()
+	defer s.poolMu.Unlock()
+	return s.pool.pick()
+}
